@@ -430,6 +430,16 @@ def run(ctx):
                 evaluations=r['transitions'])
         ctx.info['%s/rebase-histories' % impl] = dict(
             depth=r['depth_done'], states=r['states'], transitions=r['transitions'])
+    # the same histories with ZOPE_INTERFACE_STRICT_IRO=1: an operation is
+    # refused exactly when it leaves a specification without a C3 order
+    for impl in ('c', 'py'):
+        cfg = dict(oracle='c03-strict', maxb=2, decl_ops=False)     # (a refused declaration call leaves no trace of what it attempted)
+        r = bfs(ctx, impl, 'expand', cfg, int(ctx.opts.get('strict_depth', 3 if quick else 4)), label='rebase-strict',
+                pool_kw=dict(mod='c02', extra_env=ENVS['strict']))
+        ctx.add(states=r['states'], transitions=r['transitions'],
+                evaluations=r['transitions'])
+        ctx.info['%s/rebase-histories-strict-env' % impl] = dict(
+            depth=r['depth_done'], states=r['states'], transitions=r['transitions'])
     ctx.count['states'] += ctx.count['nodes_checked']
     ctx.count['transitions'] += ctx.count['evaluations']
     ctx.count['distinct_nontrivial'] = ctx.count['nodes_without_C3']
